@@ -12,6 +12,7 @@ import Vipnode.Drv.Agent
 import Vipnode.Drv.Rpc
 import Vipnode.Drv.Persist
 import Vipnode.Drv.Conc
+import Vipnode.Drv.NonceTtl
 open Vipnode Vipnode.Drv
 
 structure DState where
@@ -38,6 +39,7 @@ def stepLine (st : DState) (line : String) : DState × String :=
   | "agent" :: args => let (s, o) := agentStep st.agent args; ({ st with agent := s }, o)
   | "fuzz" :: args => (st, fuzzStep args)
   | "conc" :: args => (st, concStep args)
+  | "noncettl" :: args => (st, nonceTtlStep args)
   | "persist" :: args => let (s, o) := persistStep st.persist args; ({ st with persist := s }, o)
   | "rpc" :: args => let (s, o) := rpcStep st.rpc args; ({ st with rpc := s }, o)
   | "agentlife" :: args => let (s, o) := lifeDrvStep st.life args; ({ st with life := s }, o)
